@@ -2,7 +2,7 @@
 
 import ast
 
-from ..astutil import call_attr, call_recv, calls_in, norm, walk_own
+from ..astutil import const_value, call_attr, call_recv, calls_in, norm, walk_own
 from ..cfg import build_cfg
 from ..rules import calling, need
 from ..selftest import Mutant
@@ -23,6 +23,12 @@ ignore test is applied only to paths found by directory listing, never to the pa
 Added while testing against seeded changes: Also: _gather_dirs_to_add drops a named directory only on a component-
 aware containment test (osutils.is_inside*); the git adder probes every non-root directory with
 ControlDirFormat.find_format before listing it.
+Third round: nested-probe-for-every-directory — the `if` tests that enclose the find_format probe inside the walk mention
+only the kind variable and the directory being the tree root (both adders; a git adder without any find_format probe is
+reported, not an analysis error). conflict-helpers-listed — the suffix table of Merge3Merger._dump_conflicts (OTHER, THIS,
+BASE) is compared with associated_filenames() of every conflict class (bzr and git) whose kind is raised next to a
+_dump_conflicts call: all suffixes must be listed, except the first of the order for kinds whose first helper is
+versioned by the merger (contents conflict).
 Does not decide: parent-directory versioning, nor that nothing else becomes versioned (tree values).
 """
 
@@ -31,8 +37,92 @@ def _listing_loops(g):
     return [n.id for n in g.nodes if n.kind == "for" and "os.listdir" in norm(n.ast.iter)]
 
 
+MG = "breezy/merge.py"
+BC = "breezy/bzr/conflicts.py"
+
+
+def _helper_suffixes(ctx):
+    """conflict-helpers-listed: every helper file the merger leaves unversioned is named by the conflict's
+    associated_filenames(), the list the recursive add excludes."""
+    repo = ctx.repo
+    fd = repo.func(MG, "Merge3Merger._dump_conflicts")
+    order = []
+    for n in walk_own(fd):
+        if isinstance(n, ast.Assign) and isinstance(n.value, ast.List):
+            order += [e.elts[0].value for e in n.value.elts if isinstance(e, ast.Tuple) and e.elts and isinstance(e.elts[0], ast.Constant) and isinstance(e.elts[0].value, str)]
+    for c in calls_in(fd):
+        if call_attr(c) == "append" and c.args and isinstance(c.args[0], ast.Tuple) and c.args[0].elts and isinstance(c.args[0].elts[0], ast.Constant) and isinstance(c.args[0].elts[0].value, str):
+            order.append(c.args[0].elts[0].value)
+    ctx.require(len(order) >= 3, f"{MG}:Merge3Merger._dump_conflicts: table of helper suffixes not found ({order})")
+    # which kinds get the first helper of that order versioned (it then is not an unversioned helper)
+    first_versioned = set()
+    kinds = set()
+    for q, f in repo.module(MG).functions().items():
+        for blk in ast.walk(f):
+            for body in (getattr(blk, "body", None), getattr(blk, "orelse", None)):
+                if not isinstance(body, list):
+                    continue
+                has_dump = any(isinstance(s_, (ast.Assign, ast.Expr)) and any(call_attr(c) == "_dump_conflicts" for c in calls_in(s_)) for s_ in body)
+                if not has_dump:
+                    continue
+                ks = [c.args[0].elts[0].value for s_ in body if isinstance(s_, ast.Expr) for c in calls_in(s_) if call_attr(c) == "append" and "_raw_conflicts" in (call_recv(c) or "") and c.args and isinstance(c.args[0], ast.Tuple) and isinstance(c.args[0].elts[0], ast.Constant)]
+                ver = any(isinstance(s_, ast.For) and any(call_attr(c) == "version_file" for c in calls_in(s_)) and any(isinstance(b, ast.Break) for b in ast.walk(s_)) for s_ in body)
+                for k in ks:
+                    kinds.add(k)
+                    if ver:
+                        first_versioned.add(k)
+    ctx.require(len(kinds) >= 2, f"{MG}: conflict kinds raised next to _dump_conflicts not found ({sorted(kinds)})")
+    n_cls = 0
+    for rel in (BC, GW):
+        mod = repo.module(rel)
+        consts = {norm(s_.targets[0]): s_.value for s_ in mod.tree.body if isinstance(s_, ast.Assign) and len(s_.targets) == 1 and isinstance(s_.value, (ast.Tuple, ast.List))}
+        for cname in mod.classes():
+            cls = mod.classes()[cname]
+            own = [b for b in cls.body if isinstance(b, ast.FunctionDef) and b.name == "associated_filenames"]
+            ts = [const_value(b.value) for b in cls.body if isinstance(b, ast.Assign) and norm(b.targets[0]) == "typestring"]
+            if not own or not ts or ts[0] not in kinds:
+                continue
+            listed = set()
+            for n in ast.walk(own[0]):
+                if isinstance(n, ast.comprehension):
+                    it = consts.get(norm(n.iter), n.iter)
+                    if isinstance(it, (ast.Tuple, ast.List)):
+                        listed |= {e.value for e in it.elts if isinstance(e, ast.Constant) and isinstance(e.value, str)}
+                if isinstance(n, ast.BinOp) and isinstance(n.op, ast.Add) and isinstance(n.right, ast.Constant) and isinstance(n.right.value, str):
+                    listed.add(n.right.value)
+            required = ["." + s_ for s_ in (order[1:] if ts[0] in first_versioned else order)]
+            n_cls += 1
+            for suf in required:
+                ctx.check("conflict-helpers-listed", f"{rel}:{cname}.associated_filenames[{suf}]", suf in listed, f"{cname} ({ts[0]}) names its {suf} helper file (the merger writes {order}{', the first existing one becomes versioned' if ts[0] in first_versioned else ''})", construct=str(sorted(listed)), message=f"after a {ts[0]} the merger can leave `<path>{suf}` behind as an unversioned helper file, but {cname}.associated_filenames() lists only {sorted(listed)}: the recursive add does not recognise it as a conflict helper and versions it")
+    ctx.require(n_cls >= 4, f"only {n_cls} conflict classes with helper files found (hand-confirmed: TextConflict and ContentsConflict, bzr and git)")
+
+
+def _probe_guard(fn, try_node):
+    """Names loaded by the `if` tests that enclose the nested-tree probe inside its walk loop, and the names those tests
+    compare with the constant "directory" (the kind variable, whatever it is called)."""
+    parents = {}
+    for n in ast.walk(fn):
+        for c in ast.iter_child_nodes(n):
+            parents[id(c)] = n
+    names, kinds = set(), set()
+    cur = try_node
+    while id(cur) in parents and not isinstance(parents[id(cur)], (ast.For, ast.While, ast.FunctionDef)):
+        par = parents[id(cur)]
+        if isinstance(par, ast.If):
+            in_body = any(cur is x for x in par.body)
+            names |= {n.id for n in ast.walk(par.test) if isinstance(n, ast.Name)}
+            for cmp_ in ast.walk(par.test):
+                if isinstance(cmp_, ast.Compare) and isinstance(cmp_.left, ast.Name) and any(isinstance(c_, ast.Constant) and c_.value == "directory" for c_ in cmp_.comparators):
+                    kinds.add(cmp_.left.id)
+            if not in_body:
+                names.add("<else-branch>")
+        cur = par
+    return names, kinds
+
+
 def run(ctx):
     repo = ctx.repo
+    _helper_suffixes(ctx)
     # ---------------- bzr --------------------------------------------------------------
     fn = repo.func(BI, "_SmartAddHelper.add")
     where = f"{BI}:_SmartAddHelper.add"
@@ -69,6 +159,9 @@ def run(ctx):
     ctx.check("nested-trees-excluded", where, unreachable({f"{v_ie} is not None": False, f"{v_ie} is None": True, v_sub: True, f"not {v_sub}": False}, add) and unreachable({v_sub: True, f"not {v_sub}": False}, listing), "a nested tree is neither added nor descended into")
     ok = any("NotBranchError" in norm(h.type) and any(norm(x) == f"{v_sub} = False" for x in h.body) for h in ff[0].handlers)
     ctx.check("nested-trees-excluded", where, ok, "sub_tree is true exactly when a control directory format is found at the path")
+    pn, pk = _probe_guard(fn, ff[0])
+    extra = sorted(pn - pk - {v_dir})
+    ctx.check("nested-probe-for-every-directory", where, not extra, f"whether a directory is probed for a control directory depends only on its kind and on `{v_dir}` being the tree root", construct=str(extra), message=f"the nested-tree probe is skipped depending on {extra}: a directory that is a nested tree but is not probed (already versioned, named explicitly, ...) counts as an ordinary directory, the walk descends into it and versions the nested tree's files and its control directory")
     ctx.check("conflict-helpers-excluded", where, unreachable({f"{v_dir} in self.conflicts_related": True}, add), "a conflict helper file is never added")
     makers = [(q, f) for q, f in repo.module(BI).functions().items() if any(norm(c.func) == "_SmartAddHelper" for c in calls_in(f))]
     ctx.check("conflict-helpers-excluded", f"{BI}:{makers[0][0] if makers else '?'}", bool(makers) and all("c.associated_filenames()" in norm(f) and "conflicts_related" in norm(f) for q, f in makers), "the helper-file set handed to _SmartAddHelper is built from the conflicts' associated_filenames()")
@@ -101,6 +194,9 @@ def run(ctx):
     in_listing = lambda i: bool(g.loops_of(i)) and g.loops_of(i)[-1] in listing
     # role binding
     ud_loops = [n for n in walk_own(fn) if isinstance(n, ast.For) and isinstance(n.target, ast.Name) and any(call_attr(c) == "find_format" for c in calls_in(n))]
+    if not ud_loops and not any(call_attr(c) == "find_format" for c in calls_in(fn)):
+        ctx.check("nested-probe-for-every-directory", where, False, "the directories to walk are probed with ControlDirFormat.find_format", message="GitWorkingTree.smart_add no longer asks the control-directory format registry (ControlDirFormat.find_format) whether a directory is a nested tree: a nested tree of another format (a bzr tree inside a git tree) is walked like an ordinary directory and its files and control directory are added to the index")
+        return
     ctx.require(len(ud_loops) == 1, f"{where}: loop over the directories to walk not found")
     UD, v_ud = norm(ud_loops[0].iter), norm(ud_loops[0].target)
     v_subp = one(bound_names(fn, lambda t, n: t.startswith(f"os.path.join({v_ud}, ")), "subp = os.path.join(user_dir, name)", where)
@@ -108,6 +204,9 @@ def run(ctx):
     ffg = [s_ for s_ in walk_own(fn) if isinstance(s_, ast.Try) and any(call_attr(c) == "find_format" for c in calls_in(s_))]
     ctx.require(len(ffg) == 1, f"{where}: try block around find_format not found")
     v_sub = one([norm(x.targets[0]) for x in ffg[0].body if isinstance(x, ast.Assign) and norm(x.value) == "True"], "subtree = True after find_format", where)
+    pn, pk = _probe_guard(fn, ffg[0])
+    extra = sorted(pn - pk - {v_ud})
+    ctx.check("nested-probe-for-every-directory", where, not extra, f"whether a directory is probed for a control directory depends only on `{v_ud}` being the tree root", construct=str(extra), message=f"the nested-tree probe of the git recursive add is skipped depending on {extra}: a nested tree that is not probed is walked and its files are added to the outer index")
     v_conf = one(sorted({call_recv(c) for c in calls_in(fn) if call_attr(c) == "update" and c.args and "associated_filenames()" in norm(c.args[0])}), "conflicts_related.update(c.associated_filenames())", where)
     rt = [r_.value for r_ in walk_own(fn) if isinstance(r_, ast.Return) and isinstance(r_.value, ast.Tuple) and len(r_.value.elts) == 2]
     ctx.require(len(rt) == 1, f"{where}: `return added, ignored` not found")
@@ -155,6 +254,8 @@ def run(ctx):
 
 
 MUTANTS = [
+    Mutant("nested-tree probe only for unversioned directories", BI, '            if kind == "directory" and directory != "":\n                try:\n', '            if kind == "directory" and directory != "" and this_ie is None:\n                try:\n', expect="nested-probe-for-every-directory"),
+    Mutant("text conflict forgets its .THIS helper", BC, '        return [self.path + suffix for suffix in CONFLICT_SUFFIXES]\n', '        return [self.path + suffix for suffix in (".BASE", ".OTHER")]\n', expect="conflict-helpers-listed"),
     Mutant("bzr: named directories dropped by string prefix", BI, "            if prev_dir is None or not is_inside([prev_dir], path):", "            if prev_dir is None or not path.startswith(prev_dir):", expect="named-dirs-all-walked"),
     Mutant("git: nested-tree probe only when .git exists", GW, "                if user_dir != \"\":\n                    try:\n                        transport = _mod_transport", "                if user_dir != \"\" and os.path.lexists(os.path.join(abs_user_dir, \".git\")):\n                    try:\n                        transport = _mod_transport", expect="nested-trees-excluded"),
     Mutant("neutral: containment helper called without the alias", BI, "            if prev_dir is None or not is_inside([prev_dir], path):", "            if prev_dir is None or not osutils.is_inside_or_parent_of_any([prev_dir], path):", neutral=True),
